@@ -188,6 +188,32 @@ def cases(tier, seed):
         rng = gen.rng_for(seed, "C15", "sel", i)
         yield {"k": "sel", "specs": [rand_spec(rng, rng.choice([2, 3, 3])) for _ in range(4)],
                "values": rand_values(rng)}
+    # beyond the small sizes: lists and tuples of 16..60 alternatives (leaves, negated leaves,
+    # small nestings), and nestings 5..8 deep
+    for i in range(60 if tier == "quick" else 2000):
+        rng = gen.rng_for(seed, "C15", "wide", i)
+        specs = []
+        for _ in range(3):
+            if rng.random() < 0.7:
+                n = rng.choice([16, 17, 20, 32, 33, 40, 60])
+                items = []
+                for _j in range(n):
+                    x = rng.random()
+                    leaf = rng.choice(lv)
+                    if x < 0.25:
+                        items.append(["not", leaf, rng.choice([None, True, False])])
+                    elif x < 0.35:
+                        items.append(rand_spec(rng, 2))
+                    else:
+                        items.append(leaf)
+                specs.append([rng.choice(["or", "or", "and"]), items])
+            else:
+                sp = rng.choice(lv)
+                for _d in range(rng.randint(5, 8)):
+                    sp = rng.choice([["or", [sp, rng.choice(lv)]], ["and", [rng.choice(lv), sp]],
+                                     ["not", sp, None], ["or", [sp]]])
+                specs.append(sp)
+        yield {"k": "sel", "specs": specs, "values": rand_values(rng)}
     for i in range(NSELCTX[tier]):
         rng = gen.rng_for(seed, "C15", "selctx", i)
         yield {"k": "selctx", "ctxs": [R.rand_ctx(rng, 3) for _ in range(4)] + [{}, None]}
@@ -727,6 +753,27 @@ def run_sel(r, obs, ctl):
                     ctl.fail("selector-raises-with-raise_on_error-false",
                              "Selector(%r, raise_on_error=False)(%r) raised %s"
                              % (spec, make_value(vr), got[1]))
+            # a copy of the selector (deep copy: what the elements that copy their sequences
+            # make; pickle where the specification allows it) gives the same answers
+            import copy
+            import pickle
+            for cname, cp in (("copy.deepcopy", copy.deepcopy), ("copy.copy", copy.copy),
+                              ("pickle", lambda o: pickle.loads(pickle.dumps(o)))):
+                try:
+                    sel2 = cp(sel)
+                except Exception:  # pylint: disable=broad-except
+                    obs.count("selector_copies_not_possible:" + cname)
+                    continue
+                obs.count("selector_copies")
+                for vr, exp in zip(r["values"], exps):
+                    got2 = outcome(lambda: sel2(make_value(vr)))
+                    ctl.evals += 1
+                    if got2 != exp and all_agree:
+                        ctl.fail("selector-copy-differs:" + cname,
+                                 "%s of Selector(%r, raise_on_error=%r) gives %r for %r, the "
+                                 "selector itself and the reference evaluator %r"
+                                 % (cname, spec, roe, got2, make_value(vr), exp))
+                        break
             obs.count("reference_leaf_raises", st.leaf_raises)
             obs.count("swallowed_by_raise_on_error_false", st.swallowed)
             # Filter keeps exactly the selected values (run: lazily, up to the first raise)
@@ -784,7 +831,10 @@ def run_sel(r, obs, ctl):
         # the same specification OBJECT used for two selectors with different raise_on_error
         # (a list of cuts defined once): the second behaves like one built from its own copy,
         # and the user's containers are left as they were
-        if spec[0] in ("or", "and") and spec[1]:
+        if spec[0] in ("or", "and") and spec[1] and "None]" not in repr(spec).replace(
+                "'None'", ""):
+            # (a nested Not whose raise_on_error is inherited is built once, with the setting of
+            # build(); the reference below evaluates it with the other one: not comparable)
             try:
                 obj = build(spec, True)
 
